@@ -46,8 +46,8 @@ _PUSH = _op(
     "push",
     request=st.lists(st.integers(0, 7), min_size=1, max_size=3),
     form=st.sampled_from(["closed", "closed", "expand"]),
-    fail=st.one_of(st.just([]), st.just([]), st.lists(st.integers(0, 15), min_size=1, max_size=2)),
-    abort_at=st.sampled_from([None, None, None, None, None, 1, 2, 3, 5]),
+    fail=st.one_of(st.just([]), st.just([]), st.just([]), st.lists(st.integers(0, 15), min_size=1, max_size=2)),
+    abort_at=st.sampled_from([None, None, None, None, None, None, None, None, 1, 2, 3, 5]),
     jobs=st.sampled_from([1, 1, 4]),
     trees_from=st.sampled_from(["cache", "cache", "remote"]),
 )
@@ -60,8 +60,20 @@ _DELETE = _op("delete_remote", picks=st.lists(st.integers(0, 40), min_size=1, ma
               what=st.sampled_from(["indexed-dirs", "dirs", "files", "any"]))
 _REOPEN = _op("reopen")
 _DELCACHE = _op("delete_cache", picks=st.lists(st.integers(0, 40), min_size=1, max_size=2))
-_STEP = st.one_of(_PUSH, _PUSH, _PUSH, _PUSH, _FETCH, _FETCH, _STATUS, _STATUS, _STATUS, _DELETE, _DELETE, _DELETE,
-                  _REOPEN, _DELCACHE)
+_OPS = {"push": _PUSH, "fetch": _FETCH, "status": _STATUS, "delete_remote": _DELETE, "reopen": _REOPEN,
+        "delete_cache": _DELCACHE}
+# st.one_of() de-duplicates its branches, so weights are drawn explicitly. Losing cache objects is rare
+# (about one history in five): it makes every later push of that file fail.
+_WEIGHTS = (["push"] * 13 + ["fetch"] * 6 + ["status"] * 10 + ["delete_remote"] * 10 + ["reopen"] * 3
+            + ["delete_cache"])
+
+
+@st.composite
+def _step(draw):
+    return draw(_OPS[draw(st.sampled_from(_WEIGHTS))])
+
+
+_STEP = _step()
 
 
 def _vals(s):
